@@ -17,7 +17,7 @@ RULE = ("EVERY listing of length 1..L over a 6-instruction alphabet (0-3 operand
         "operand-less instructions), indentation 0..8, raw-byte column 1..7 bytes with different values, byte-continuation "
         "line inserted; plus EVERY pair of edit kinds at the first two positions. Oracle (real code vs real code): the "
         "instruction stream and the all-matches result lists of 8 fixed rules are identical for the edited and the "
-        "canonical presentation. Non-trivial = every edited listing (each differs textually from the canonical one).")
+        "canonical presentation, also under a rule with valid_addr_range and a full-match flag (which installs the optional instruction observer). Non-trivial = every edited listing (each differs textually from the canonical one).")
 ASSUMPTIONS = ["presentation edits keep objdump's line syntax (TAB-separated address / bytes / text); arbitrary text is C08's subject"]
 LEVEL_TEXT = ("All listings up to the bound x all single edits at all positions and all pairs of edit kinds; stream and results "
               "compared with the canonical presentation. Exhaustive within bounds.")
@@ -29,6 +29,7 @@ ADDRS = ["401000", "401003", "401008", "40100c", "401013"]
 RULES = [["mov"], [{"mov": ["rax"]}], ["call"], [{"call": ["401030"]}], ["ret"], [{"$not": ["ret"]}, "ret"], ["&i", "&i"],
          [{"mov": [{"$deref": {"main_reg": "rax", "register_multiplier": "rbx", "constant_multiplier": 4, "constant_offset": "0x8"}}]}]]
 
+CONF2 = {"valid_addr_range": {"min": "401000", "max": "401fff"}, "mnemonics-full-match": True}
 HEADER = ["", "a.out:     file format elf64-x86-64", "", "", "Disassembly of section .text:", ""]
 LABELS = ["f", "main", "foo(int, char)", "a|b", "x::y", "_Z3fooi.cold"]
 ANNOTS = ["f", "f+0x10", "foo(int, char)+0x4", "a|b::c,d", "main-0x8"]
@@ -108,17 +109,12 @@ _MOPS = {}
 def run_shard(shard, tier, h, res, known):
     L = bounds(tier)["L_listing_len"]
     listings = [idx for n in range(1, L + 1) for idx in itertools.product(range(len(ALPHA)), repeat=n)]
-    if h.root not in _MOPS:
-        _MOPS.clear()
-        _MOPS[h.root] = [h.mop(make_rule_doc(r)) for r in RULES]
-    mops = _MOPS[h.root]
+    mops = [h.mop(make_rule_doc(r)) for r in RULES]
     for li in range(shard["lo"], len(listings), shard["n"]):
         idx = listings[li]
         insts = [(ADDRS[p], ALPHA[i][0], ALPHA[i][1]) for p, i in enumerate(idx)]
         base_text = Pres(len(insts)).render(insts)
         bp = h.write("base.s", base_text)
-        base_stream = h.match(mops[0], bp, ret="stream")
-        base_res = [h.match(m, bp) for m in mops]
         cases = []
         for i in range(len(insts)):
             for name, fn in edits_at(i, insts[i]):
@@ -136,32 +132,56 @@ def run_shard(shard, tier, h, res, known):
             for (n0, f0) in kinds0.values():
                 for (n1, f1) in kinds1.values():
                     cases.append(((n0 + "@0", n1 + "@1"), [f0, f1]))
+        texts = []
         for names, fns in cases:
             p = Pres(len(insts))
             for fn in fns:
                 fn(p)
-            text = p.render(insts)
+            texts.append((names, p.render(insts)))
+
+        def report(names, text, clause, exp, obs):
+            res.fail({"clause": clause, "family": "edit", "edits": list(names), "text": text, "base_text": base_text,
+                      "expected": exp, "observed": obs, "size": len(insts) * 10 + len(names)}, known)
+
+        # phase 1: config-free rules (the process-global config is that of the rule compiled last, so all rules of a
+        # phase share one config and nothing else is compiled until the phase is over)
+        mops = [h.mop(make_rule_doc(r)) for r in RULES]
+        base_stream = h.match(mops[0], bp, ret="stream")
+        base_res = [h.match(m, bp) for m in mops]
+        for names, text in texts:
             ep = h.write("edit.s", text)
             res.evaluations += 1
             res.nontrivial += 1
             try:
                 stream = h.match(mops[0], ep, ret="stream")
             except Exception as e:  # the real parser/consumer raised on a presentation edit
-                res.fail({"clause": "crash", "family": "edit", "edits": list(names), "text": text, "base_text": base_text,
-                          "expected": "no exception", "observed": repr(e), "size": len(insts) * 10 + len(names)}, known)
+                report(names, text, "crash", "no exception", repr(e))
                 continue
-            bad = None
             if stream != base_stream:
-                bad = ("stream", base_stream, stream)
-            else:
-                for ri, m in enumerate(mops):
-                    r = h.match(m, ep)
-                    if r != base_res[ri]:
-                        bad = (f"result[{RULES[ri]}]", base_res[ri], r)
-                        break
-            if bad:
-                res.fail({"clause": bad[0].split("[")[0], "family": "edit", "edits": list(names), "text": text, "base_text": base_text,
-                          "expected": bad[1], "observed": bad[2], "size": len(insts) * 10 + len(names)}, known)
+                report(names, text, "stream", base_stream, stream)
+                continue
+            for ri, m in enumerate(mops):
+                r = h.match(m, ep)
+                if r != base_res[ri]:
+                    report(names, text, "result", base_res[ri], r)
+                    break
+        # phase 2: the same comparison under a rule whose config installs the optional instruction observer
+        mop_cfg = h.mop(make_rule_doc([{"call": ["valid_addr"]}], CONF2))
+        base_stream2 = h.match(mop_cfg, bp, ret="stream")
+        base_res2 = h.match(mop_cfg, bp)
+        for names, text in texts:
+            ep = h.write("edit.s", text)
+            res.evaluations += 1
+            try:
+                s2 = h.match(mop_cfg, ep, ret="stream")
+                r2 = h.match(mop_cfg, ep)
+            except Exception as e:
+                report(names, text, "crash-with-config", "no exception", repr(e))
+                continue
+            if s2 != base_stream2:
+                report(names, text, "stream-with-config", base_stream2, s2)
+            elif r2 != base_res2:
+                report(names, text, "result-with-config", base_res2, r2)
         if len(res.samples) < 1:
             res.samples.append({"edits": list(cases[len(cases) // 2][0]), "listing": [[a, m, o] for a, m, o in insts]})
 
@@ -181,15 +201,17 @@ def controls(h):
 
 
 def replay(case, h):
-    mops = [h.mop(make_rule_doc(r)) for r in RULES]
     a, b = h.write("a.s", case["base_text"]), h.write("b.s", case["text"])
+    mops = [h.mop(make_rule_doc(r)) for r in RULES]
     try:
-        h.match(mops[0], b, ret="stream")
+        if h.match(mops[0], a, ret="stream") != h.match(mops[0], b, ret="stream"):
+            return True, "streams differ"
     except Exception as e:
         return True, repr(e)
-    if h.match(mops[0], a, ret="stream") != h.match(mops[0], b, ret="stream"):
-        return True, "streams differ"
     for m, r in zip(mops, RULES):
         if h.match(m, a) != h.match(m, b):
             return True, f"results differ for {r}"
+    m2 = h.mop(make_rule_doc([{"call": ["valid_addr"]}], CONF2))
+    if h.match(m2, a, ret="stream") != h.match(m2, b, ret="stream") or h.match(m2, a) != h.match(m2, b):
+        return True, "stream/results differ under the valid_addr_range config"
     return False, "identical"
